@@ -139,9 +139,47 @@ def Bin(op, a=None, b=None, commutative=None):
     return m
 
 
+ERR_WRAPPERS = ("map_err", "ok_or_else", "ok_or")
+
+
+def success_core(e):
+    """for the success payload of a fallible value: (inner, [inner with its error-only wrappers map_err / ok_or / ok_or_else removed]).
+    `x?`, `match x { Ok(v) => v, Err(..) => return .. }` and `x.map_err(f)?` all have the payload of x."""
+    if not isinstance(e, tuple):
+        return None
+    if e[0] == "try":
+        inner = e[1]
+    elif e[0] == "vfield" and e[2] in ("Ok", "Some", "Continue") and str(e[3]) == "0":
+        inner = e[1]
+    else:
+        return None
+    outs = [inner]
+    x = inner
+    while isinstance(x, tuple) and x[0] == "call" and str(x[1]).split("::")[-1] in ERR_WRAPPERS and x[2]:
+        x = x[2][0]
+        outs.append(x)
+    return outs
+
+
+def synthetic_wrappers(x):
+    """x as the first argument of each error-only wrapper, so that a pattern written for `x.ok_or_else(..)` also accepts the
+    explicit `match x { None => return Err(..), Some(v) => v }`"""
+    return [("call", "synthetic::" + w, (x, ("unk", "_")), None, None) for w in ERR_WRAPPERS]
+
+
 def Try(p=None):
+    """the success payload of a fallible value, in any spelling: `e?`, an explicit match on Ok/Some, with or without map_err /
+    ok_or(_else) in between"""
     def m(e):
-        return isinstance(e, tuple) and e[0] == "try" and (p is None or p(e[1]))
+        cs = success_core(e)
+        if cs is None:
+            return False
+        if p is None:
+            return True
+        for x in cs:
+            if p(x):
+                return True
+        return any(p(w) for w in synthetic_wrappers(cs[-1]))
     return m
 
 
